@@ -15,17 +15,55 @@
 
 package quickfix
 
-import "io"
+import (
+	"io"
+	"sync"
+)
 
+// writeLoop writes what the session hands over on messageOut to the connection, in order, and returns once
+// the channel is closed and everything taken from it has been written.
+//
+// Messages are taken off the channel as they come, whether or not the connection accepts more bytes right
+// now: a session that is blocked on this channel does not process what the counterparty sends, so two engines
+// replaying backlogs larger than the transport buffers to each other would otherwise wait for each other forever.
 func writeLoop(connection io.Writer, messageOut chan []byte, log Log) {
+	var (
+		mu      sync.Mutex
+		pending [][]byte
+		closed  bool
+	)
+	wake := sync.NewCond(&mu)
+
+	go func() {
+		for msg := range messageOut {
+			mu.Lock()
+			pending = append(pending, msg)
+			mu.Unlock()
+			wake.Signal()
+		}
+		mu.Lock()
+		closed = true
+		mu.Unlock()
+		wake.Signal()
+	}()
+
 	for {
-		msg, ok := <-messageOut
-		if !ok {
+		mu.Lock()
+		for len(pending) == 0 && !closed {
+			wake.Wait()
+		}
+		batch := pending
+		pending = nil
+		mu.Unlock()
+
+		if len(batch) == 0 {
 			return
 		}
 
-		if _, err := connection.Write(msg); err != nil {
-			log.OnEvent(err.Error())
+		for _, msg := range batch {
+			if _, err := connection.Write(msg); err != nil {
+				log.OnEvent(err.Error())
+			}
 		}
 	}
 }
